@@ -391,7 +391,7 @@ func (w *world) process(e *endpoint, reqs []request, wires [][]byte) {
 		}
 		plain, why := cfg.ci.open(w.key, wire)
 		if why != "" {
-			w.viol("wire-malformed", fmt.Sprintf("%s: datagram #%d (%d bytes) cannot be decrypted/verified with the standard library: %s", e.name, e.nDgram, len(wire), why))
+			w.viol("wire-undecryptable", fmt.Sprintf("%s: datagram #%d (%d bytes) cannot be decrypted/verified with the standard library: %s", e.name, e.nDgram, len(wire), why))
 			if plain == nil {
 				continue
 			}
